@@ -1,5 +1,6 @@
 """Driver shared by C01 / C03 (Scopes.tla): real scopes, updates and tasks behind gates."""
 from harness.interp import Disp, World
+from harness.legs import OPT
 
 
 class ScopesDriver:
@@ -129,6 +130,12 @@ def gen_trace(rnd, ntasks=4, nops=28, max_depth=6):
                 ch += ["prepare"]
             elif prep[0] == "used" and prep[1] == "ascope":
                 ch += ["reenter"]
+            elif prep[0] == "used" and prep[1] == "update" and not OPT and \
+                    any(f == ("update", 98) for fs in frames.values() for f in fs) and \
+                    not any(f == ("update", 99) for fs in frames.values() for f in fs):
+                # the prepared update object is in use and entered once more (refused only by an assert, so not in the
+                # optimised pass)
+                ch += ["reenter"] * 2
             tries = [i for i, (kind, sid) in enumerate(frames[t]) if kind == "try"]
             if tries and not any(kind == "ascope" and any(grp.get(u) == sid for u in alive)
                                  for kind, sid in frames[t][tries[-1]:]):
@@ -160,7 +167,7 @@ def gen_trace(rnd, ntasks=4, nops=28, max_depth=6):
                 sup = [list(rnd.choice(pairs)) for _ in range(rnd.choice([0, 1, 1]))]
                 if kind != "update":
                     nsid += 1
-                prep = ["ready", kind, nsid if kind != "update" else 0]
+                prep = ["ready", kind, nsid if kind != "update" else 98]
                 name, args = "Prepare", [t, kind, sup]
             elif c == "enterprep":
                 prep[0] = "used"
@@ -188,13 +195,60 @@ def gen_trace(rnd, ntasks=4, nops=28, max_depth=6):
             else:
                 alive.discard(t)
                 name, args = "End", [t]
+            nev = len(d.w.events)
             o = d.apply(name, tuple(tuple(tuple(p) for p in a) if isinstance(a, list) else a for a in args))
+            if name == "ReEnter" and any(len(ev) > 1 and ev[1] == "reentered" for ev in d.w.events[nev:]):
+                frames[t].append(("update", 99))       # it was let in: a block of its own from here on
             if isinstance(o, dict):  # loop errors reported by the driver: keep them visible
                 o = o["obs"]
             tr.append(dict(ev=name, args=args, obs=[dict(x, p={k: list(v) for k, v in x["p"].items()}) for x in o]))
     finally:
         d.close()
     return tr
+
+
+def shared_update_traces():
+    """directed programs around ONE prepared update object in use twice at the same time: by two tasks (each leaving first
+    in turn) and by one task nested in itself; recorded from the real library like the random ones"""
+    progs = []
+    for sup in ([["A", 1]], [["A", 2], ["B", 2]]):
+        for first in (1, 2):
+            progs.append([("Enter", [1, "sscope", [["A", 2], ["B", 1]], []]), ("Prepare", [1, "update", sup]), ("EnterPrepared", [1]),
+                          ("Start", [1, 2, "plain"]), ("Enter", [2, "update", [["B", 2]], []]), ("ReEnter", [2]),
+                          ("Leave", [first]), ("Leave", [3 - first]), ("Leave", [2]), ("End", [2]), ("Leave", [1])])
+        progs.append([("Prepare", [1, "update", sup]), ("Enter", [1, "update", [["B", 1]], []]), ("EnterPrepared", [1]),
+                      ("ReEnter", [1]), ("Leave", [1]), ("Leave", [1]), ("Leave", [1])])
+    out = []
+    for prog in progs:
+        d = ScopesDriver(("A", "B"))
+        d.reset(dict(pc=[0] * 4))
+        tr = [dict(ev="Init", init={})]
+        depth = {1: 0, 2: 0}
+        try:
+            for name, args in prog:
+                t = args[0]
+                if name == "Leave" and depth[t] == 0:
+                    continue        # (the second entering was refused: there is one block less to leave)
+                nev = len(d.w.events)
+                try:
+                    o = d.apply(name, tuple(tuple(tuple(p) for p in a) if isinstance(a, list) else a for a in args))
+                except Exception as e:  # noqa: BLE001  - a task the program still needs is gone: no specification step fits
+                    tr.append(dict(ev=name, args=args, obs=[dict(pc=f"the program could not continue: {e!r}"[:120], p={}, ms=0, tg=0,
+                                                                 exc="none")]))
+                    break
+                if name in ("Enter", "EnterPrepared"):
+                    depth[t] += 1
+                elif name == "ReEnter" and any(len(ev) > 1 and ev[1] == "reentered" for ev in d.w.events[nev:]):
+                    depth[t] += 1
+                elif name == "Leave":
+                    depth[t] -= 1
+                if isinstance(o, dict):
+                    o = o["obs"]
+                tr.append(dict(ev=name, args=args, obs=[dict(x, p={k: list(v) for k, v in x["p"].items()}) for x in o]))
+        finally:
+            d.close()
+        out.append(tr)
+    return out
 
 
 TRACE_KW = dict(
